@@ -195,6 +195,9 @@ ExtractList(kind, m) ==
       [] kind = "dup"   -> IF m >= 2 THEN <<2, 2, 1>> ELSE <<1, 1>>
       [] kind = "oob"   -> <<1, m + 1>>
       [] kind = "neg"   -> <<0>>
+      [] kind = "mid"   -> IF m >= 3 THEN <<2, 3>> ELSE <<1>>      \* consecutive positions (the caller may write them as a range)
+\* The table handed back is a VALUE: later operations on the data set do not change it, and operations on it do not
+\* change the data set (the replay re-reads every returned table after each later step, and scales the returned one).
 ExtractOK(tb, ps) == ps # << >> /\ \A j \in 1..Len(ps) : ps[j] \in Pos(tb)
 ExtractRes(tb, ps) == [j \in 1..Len(ps) |-> tb[ps[j]]]
 
